@@ -534,10 +534,14 @@ def _rebind_parse_action(interp, base, margs):
     if isinstance(f, ExtRef) and f.name.startswith('pyparsing.'):
         # one of pyparsing's own parse actions (removeQuotes, ...)
         return T('parseaction', base, (), f)
+    if isinstance(f, Obj) and f.cls is not None and isinstance(
+            f.cls.lookup('__call__')[0], FuncRef):
+        # an instance of a callable repo class
+        f = f.cls.lookup('__call__')[0].bind(f)
     if not isinstance(f, FuncRef):
         interp.inexact('parse action is not a function')
         return base
-    n = len(f.node.args.args)
+    n = len(f.node.args.args) - (1 if f.bound is not None else 0)
     params = tuple(T('sym', 'pa%d' % i) for i in range(n))
     body = None
     if isinstance(f.node, _ast.Lambda):
